@@ -119,10 +119,10 @@ class Ctx:
             self.viol(mechanism, detail() if callable(detail) else detail, **fields)
         return ok
 
-    def close(self, value, bound, mechanism: str, detail="", **fields) -> bool:
-        """Residual check |value| <= bound; tracks the worst residual seen per mechanism."""
+    def close(self, value, bound, mechanism: str, detail="", track=None, **fields) -> bool:
+        """Residual check |value| <= bound; tracks the worst residual seen per mechanism (or mechanism:track)."""
         v = float(value)
-        r = self.residuals.setdefault(mechanism, {"worst": 0.0, "bound": float(bound), "n": 0})
+        r = self.residuals.setdefault(mechanism if track is None else "%s:%s" % (mechanism, track), {"worst": 0.0, "bound": float(bound), "n": 0})
         r["n"] += 1
         r["bound"] = max(r["bound"], float(bound))
         if v == v and abs(v) > r["worst"]:
